@@ -88,7 +88,6 @@ fn effective_config(c: &vh::Config) -> Value {
         "csiMethods": methods,
         "plusOperator": c.csi_methods.plus_operator.as_ref().map(|m| m.dst.clone()),
         "tplOperator": c.csi_methods.tpl_operator.as_ref().map(|m| m.dst.clone()),
-        "literalCallers": c.csi_methods.method_with_literal_callers,
         "telemetryVerbosity": format!("{:?}", c.verbosity).to_uppercase(),
         "literals": c.literals,
         "prefixStmts": c.file_prefix_code.len(),
